@@ -62,6 +62,20 @@ MISSED_AT_FIRST = {
     'C15-6': 'missed: declarations never changed between two builds of one Composite; a schema override is merged between the second and a third build',
     'C18-6': 'missed: None values were not generated; query family with None values',
     'C19-6': 'missed: every process object was used in one engine; a second engine is now built with the same process objects',
+    'C01-7': 'reverts D34; caught by C10 at first, not by C01: C01 now has a structural family (C10\'s workload judged on the cells\' ledgers: ledger_in_order per incarnation of a cell)',
+    'C02-7': 'missed: no parallel processes in C02; a few cases now run processes in workers (the ledger updater in the parent still sees every applied token)',
+    'C06-7': 'caught by C07 at first (same change as C07-6 after its rebase), not by C06: C06 now also builds its engines through Engine(store=) with and without a separate initial state',
+    'C07-7': 'missed: every viewer was idle when the director\'s update was applied; viewer timesteps 1.5, 2 and 3 added (an update in flight when the structure changes)',
+    'C08-7': 'missed: no variable received {} through a port of its own; a dictionary-valued root variable is set to {} every tick',
+    'C09-7': 'caught by C10 at first, not by C09 (Store-level check ignored what apply_update reports): oracle reported_paths added',
+    'C10-7': 'missed: in every cell the dependent step was registered before its dependency; listing order now varies (cell_rev)',
+    'C11-7': 'missed: the zero divider only met small integers; a second zero variable with inf, lists, strings, dictionaries, None, True as mother value',
+    'C14-7': 'missed: no zero-dimensional arrays; 0-d, masked-with-mask and strided arrays added',
+    'C15-7': 'missed: no glob store below another glob store; family nested_glob added',
+    'C16-7': 'missed: merges never replaced a dictionary by a non-dictionary under one key; op rewire added',
+    'C17-7': 'missed: Store.add_node was only reached through move with one-key paths; a detached subtree is re-attached with add_node and a path of several keys',
+    'C18-7': 'missed: every time reached the emitter in one emit; a quarter of the cases split each row over two emits',
+    'C19-7': 'missed: event values were truthy; falsy event values added and the declared default made different from the initial value',
     'C19-4': 'missed: one update() whose length is a multiple of the timestep; a third of the cases now make 2-4 update() calls that cut ticks short',
 }
 
